@@ -24,12 +24,13 @@ let show_rows ?(canon=false) (n : int) (m : int) (rows : Crs.row list) =
   if !bad then "BADDM col-out-of-range" else
   "{" ^ string_of_int n ^ " " ^ string_of_int m ^ String.concat "" rs ^ "}"
 
-let show_strips ?(canon=false) ?(sizes=true) (d : Dist.dmat) (gcols : int) =
+let strips_list ?(canon=false) ?(sizes=true) (d : Dist.dmat) (gcols : int) : string list =
   let ss = Dist.strips sc d in
   let gs = Dist.dist_glob_sizes sc d in
-  join (List.mapi (fun r rows ->
+  List.mapi (fun r rows ->
       let s = show_rows ~canon (List.length rows) gcols rows in
-      if sizes then (let ((gr, gc), gz) = List.nth gs r in Printf.sprintf "%s %d %d %d" s gr gc gz) else s) ss)
+      if sizes then (let ((gr, gc), gz) = List.nth gs r in Printf.sprintf "%s %d %d %d" s gr gc gz) else s) ss
+let show_strips ?(canon=false) ?(sizes=true) (d : Dist.dmat) (gcols : int) = join (strips_list ~canon ~sizes d gcols)
 
 let chunks_vec parts v = Kernels.chunks parts v
 let show_chunks parts v = join (List.map show_vec (chunks_vec parts v))
@@ -169,6 +170,72 @@ let () =
     let a = t_crs t in let p = t_ivec t in
     check_parts a p p;
     join (List.map show_s (Dist.dist_gershgorin_spec sc (scale <> 0) a (List.length p))))
+
+(* ---- operation histories on one distributed_matrix object (DistMove.v) ----
+   hist A rparts cparts B kparts x f nsteps step* : the state is the extracted DistMove.dobj; mv0/mv1 apply the extracted
+   DistMove.move_to_backend; the consumers read DistMove.source (what local()/remote() return) resp. the backend view
+   (DistMove.obj_spmv / obj_residual) of the CURRENT state.  Output format: harness/drv_mpi_algebra.cpp, op hist. *)
+let () =
+  reg "hist" (fun t -> let a = t_crs t in let rp = t_ivec t in let cp = t_ivec t in
+    let b = t_crs t in let kp = t_ivec t in
+    let x = t_vec t in let f = t_vec t in
+    let steps = t_list t next in
+    check_parts a rp cp; check_parts b cp kp;
+    if List.length x <> a.Crs.ncols || List.length f <> List.length a.Crs.rows then raise (Model_exc "runtime_error");
+    let np = nranks cp in
+    let s0 = sc.Scalar.s0 and s1 = sc.Scalar.s1 in
+    let st = ref (DistMove.construct sc (Dist.split sc a rp cp)) in
+    let outs = Array.make np [] in
+    let push per = if List.length per <> np then failwith "hist: per-rank list"; List.iteri (fun r s -> outs.(r) <- s :: outs.(r)) per in
+    let all s = List.init np (fun _ -> s) in
+    let b2i = function Some _ -> 1 | None -> 0 in
+    let zeros = chunks_vec rp (List.map (fun _ -> s0) a.Crs.rows) in
+    let xs = chunks_vec cp x and fs = chunks_vec rp f in
+    let opt_crs = function Some m -> show_crs m | None -> "-" in
+    let nrows_a = List.length a.Crs.rows in
+    List.iter (fun step ->
+      let o = !st in
+      let with_src k = match DistMove.source sc o with None -> push (all "NOSRC") | Some d -> push (k d) in
+      match step with
+      | "mv0" | "mv1" ->
+          st := DistMove.move_to_backend sc (step = "mv1") o;
+          push (List.map (fun (ro : DistMove.rank_obj) ->
+            Printf.sprintf "mv%d%d%d%d x%s" (b2i ro.DistMove.ob_bloc) (b2i ro.DistMove.ob_brem) (b2i ro.DistMove.ob_src) (b2i ro.DistMove.ob_src)
+              (match ro.DistMove.ob_xrem with Some k -> string_of_int k | None -> "-")) (!st).DistMove.do_ranks)
+      | "dump" ->
+          push (List.mapi (fun r (ro : DistMove.rank_obj) ->
+            let src = match ro.DistMove.ob_src with
+              | None -> "-"
+              | Some m -> let rows = Dist.strip_rows sc (Dist.pbeg cp r) m in show_rows (List.length rows) a.Crs.ncols rows in
+            Printf.sprintf "src=%s bk=%s,%s" src (opt_crs ro.DistMove.ob_bloc) (opt_crs ro.DistMove.ob_brem)) o.DistMove.do_ranks)
+      | "spmv" ->
+          push (List.map (function Some v -> show_vec v | None -> "NOBK") (DistMove.obj_spmv sc s1 o xs s0 zeros))
+      | "res" ->
+          push (List.map (function Some v -> show_vec v | None -> "NOBK") (DistMove.obj_residual sc fs o xs zeros))
+      | "tr" -> with_src (fun d -> strips_list (Dist.dist_transpose sc d rp) nrows_a)
+      | "prod" -> with_src (fun d -> strips_list (Dist.dist_product sc d (Dist.split sc b cp kp)) b.Crs.ncols)
+      | "ata" -> with_src (fun d -> strips_list (Dist.dist_product sc (Dist.dist_transpose sc d rp) d) a.Crs.ncols)
+      | "rrt" -> with_src (fun d ->
+          let pats = Dist.dm_pattern sc (Dist.dist_transpose sc d rp) in
+          List.map (fun r -> let rows = Dist.dist_remote_rows sc pats d r in show_rows (List.length rows) a.Crs.ncols rows) (ranks cp))
+      | "copyf" ->
+          (match DistMove.copy_obj sc o with
+           | None -> push (all "NOSRC")
+           | Some c ->
+               let c' = DistMove.move_to_backend sc true c in
+               (match DistMove.source sc c', DistMove.source sc o with
+                | Some dc, Some d ->
+                    let gs = Dist.dist_glob_sizes sc d in
+                    let strips = strips_list ~sizes:false dc a.Crs.ncols in
+                    push (List.mapi (fun r y ->
+                      let ((gr, gc), gz) = List.nth gs r in
+                      Printf.sprintf "%s %d %d %d %s" (match y with Some v -> show_vec v | None -> "NOBK") gr gc gz (List.nth strips r))
+                      (DistMove.obj_spmv sc s1 c' xs s0 zeros))
+                | _ -> push (all "NOSRC")))
+      | "g0" | "g1" -> with_src (fun d -> List.map show_s (Dist.dist_gershgorin sc (step = "g1") d))
+      | "pw" -> with_src (fun _ -> all "pw same")
+      | s -> failwith ("hist: unknown step " ^ s)) steps;
+    join (Array.to_list (Array.map (fun l -> String.concat " / " (List.rev l)) outs)))
 
 (* ---- message-passing model (DistMsg.v) ---- *)
 (* canonical text of a rank's trace, as harness/pmpi_trace.hpp prints it: request variables = handles,
